@@ -255,3 +255,85 @@ func r17IteratorCloseReleases(c *cx, id string) int {
 	}
 	return n
 }
+
+// r17NegotiatorStateOnlyFromTheNegotiator (C01.27 / C02.25): what the
+// negotiator remembers between steps (its first-list indicator, the tee's
+// cancel function) travels through negotiateSession untouched: the local that
+// is handed to the negotiator as its state is written by the negotiator call
+// itself and by nothing else. A reset on restart ("nothing remembered about
+// the old stream is valid") re-arms the first-list indicator: the forced
+// STARTTLS attempt is made again on a later list.
+func r17NegotiatorStateOnlyFromTheNegotiator(c *cx, id string) {
+	f := c.fn(id, "", "negotiateSession")
+	if f == nil {
+		return
+	}
+	g := f.Graph()
+	n := 0
+	for _, cl := range f.AllCalls() {
+		if t := f.Info().TypeOf(cl.Fun); t == nil || eng.TypeStr(t) != "xmpp.Negotiator" || len(cl.Args) == 0 {
+			continue
+		}
+		v := g.LocalVar(cl.Args[len(cl.Args)-1])
+		if v == nil {
+			c.r.Check(id, f, "negotiator state argument", "the state handed to the negotiator is a local variable", cl.Pos(), false, "argument is "+f.Norm(cl.Args[len(cl.Args)-1], nil))
+			continue
+		}
+		for _, d := range g.DefsOf(v) {
+			if d.Kind == eng.DefZero || d.Kind == eng.DefParam {
+				continue
+			}
+			n++
+			okd := d.Kind == eng.DefTuple && d.RHS != nil && ast.Unparen(d.RHS) == ast.Expr(cl)
+			c.r.Check(id, f, "write of the negotiator's state variable", "W: only the negotiator call itself stores into the state it is handed back", d.Node.Pos(), okd, "written by "+f.Prog.NodeStr(d.Node)+": what the negotiator remembered (the first-list indicator) is lost between steps")
+		}
+	}
+	c.r.Floor(id, "writes of the negotiator's state variable", n, 1)
+}
+
+// r17ParsedDataAlwaysRecorded (C03.18 / C01.28): the data a feature's Parse
+// returns for THIS features list (the SASL mechanisms the receiver offers now)
+// is what Negotiate gets: readStreamFeatures stores it into Session.features
+// whenever it caches the feature; the store does not depend on what the map
+// held before (a "keep the first" guard hands the mechanism list of an earlier
+// list of the same stream to the SASL feature).
+func r17ParsedDataAlwaysRecorded(c *cx, id string) {
+	f := c.fn(id, "", "readStreamFeatures")
+	if f == nil {
+		return
+	}
+	g := f.Graph()
+	n := 0
+	for _, mu := range f.MapUpdates() {
+		if cls, ok := f.FieldClass(mu.Map); !ok || cls != "xmpp.Session.features" || mu.Delete {
+			continue
+		}
+		if mu.Value == nil || f.Norm(mu.Value, nil) == "nil" {
+			continue
+		}
+		n++
+		pt, _ := g.Where(mu.Node)
+		var bad []string
+		for _, a := range g.FactsAt(pt) {
+			if strings.Contains(a, ".features[") && !strings.HasPrefix(a, "!commaok(") && !strings.HasPrefix(a, "commaok(") {
+				bad = append(bad, a)
+			}
+		}
+		c.r.Check(id, f, "parsed data recorded", "G: the store of Parse's data does not depend on the previous content of Session.features", mu.Node.Pos(), len(bad) == 0, "stored only if "+strings.Join(bad, " ; ")+": Negotiate gets the data of an earlier features list")
+	}
+	c.r.Floor(id, "stores of parsed data into Session.features", n, 1)
+}
+
+// r17RefusalTableComplete (C15.33): a data packet is refused for four reasons
+// (unknown session, out of sequence, buffer overflow, undecodable data) and
+// for no other: handlePayload writes exactly one stanza error per reason. A
+// fifth refusal ("more than the block size") rejects what the library's own
+// sender emits for block sizes 1 and 2 (whole base64 groups).
+func r17RefusalTableComplete(c *cx, id string) {
+	f := c.fn(id, "ibb", "handlePayload")
+	if f == nil {
+		return
+	}
+	n := len(f.CallsDeep("ibb.errorResponder.Error"))
+	c.r.Check(id, f, "number of refusals", "T: four refusal replies, one per row of the table of C15.2", f.Pos(), n == 4, "handlePayload writes "+itoaPos(token.Pos(n))+" different refusals")
+}
